@@ -994,6 +994,16 @@ func (a *Analyzer) SearchLoops(field, elemField string) (int, []string) {
 				if !ok || fieldOfLoad(ia.X) != field {
 					continue
 				}
+				if !isRangeIndex(ia.Index) {
+					// a plain indexed access: order-insensitive only when the index comes from a first-match search by equality
+					// on the key field (slices.IndexFunc(list, func(e) bool { return e.<key> == invariant }))
+					if !indexFromEqualitySearch(ia.Index, field, elemField) {
+						problems = append(problems, "indexed access into "+field+" at "+a.P.InstrPos(ia)+" with an index that is not the result of an equality search on ."+elemField+": the (random) order of the list decides which element is read")
+					} else {
+						n++
+					}
+					continue
+				}
 				// rangeindex loop: body = blocks dominated by ia's block; header = idom
 				body := ia.Block()
 				hdr := body.Idom()
@@ -1061,6 +1071,89 @@ func (a *Analyzer) SearchLoops(field, elemField string) (int, []string) {
 		}
 	}
 	return n, problems
+}
+
+// isRangeIndex: the induction variable of a range-over-slice loop (phi #rangeindex, or that phi + 1).
+func isRangeIndex(v ssa.Value) bool {
+	switch x := v.(type) {
+	case *ssa.Phi:
+		return x.Comment == "rangeindex"
+	case *ssa.BinOp:
+		if p, ok := x.X.(*ssa.Phi); ok && p.Comment == "rangeindex" {
+			return true
+		}
+	}
+	return false
+}
+
+// indexFromEqualitySearch: idx is the result of slices.IndexFunc(<field>, closure) where the closure returns
+// elem.<elemField> == <captured or constant value>.
+func indexFromEqualitySearch(idx ssa.Value, field, elemField string) bool {
+	c, ok := idx.(*ssa.Call)
+	if !ok {
+		return false
+	}
+	callee := c.Call.StaticCallee()
+	if callee == nil {
+		return false
+	}
+	name := callee.String()
+	if o := callee.Origin(); o != nil {
+		name = o.String()
+	}
+	if name != "slices.IndexFunc" && name != "golang.org/x/exp/slices.IndexFunc" {
+		return false
+	}
+	if len(c.Call.Args) != 2 || fieldOfLoad(c.Call.Args[0]) != field {
+		return false
+	}
+	var fn *ssa.Function
+	switch f := c.Call.Args[1].(type) {
+	case *ssa.MakeClosure:
+		fn, _ = f.Fn.(*ssa.Function)
+	case *ssa.Function:
+		fn = f
+	}
+	if fn == nil || len(fn.Params) != 1 || len(fn.Blocks) != 1 {
+		return false
+	}
+	ret, ok := fn.Blocks[0].Instrs[len(fn.Blocks[0].Instrs)-1].(*ssa.Return)
+	if !ok || len(ret.Results) != 1 {
+		return false
+	}
+	bo, ok := ret.Results[0].(*ssa.BinOp)
+	if !ok || bo.Op != token.EQL {
+		return false
+	}
+	// a struct parameter is spilled into a local cell: the element is the parameter or that cell
+	roots := []ssa.Value{fn.Params[0]}
+	for _, r := range refs(fn.Params[0]) {
+		if st, ok := r.(*ssa.Store); ok && st.Val == ssa.Value(fn.Params[0]) {
+			if al, ok := st.Addr.(*ssa.Alloc); ok {
+				roots = append(roots, al)
+			}
+		}
+	}
+	for _, pr := range [][2]ssa.Value{{bo.X, bo.Y}, {bo.Y, bo.X}} {
+		found := false
+		for _, root := range roots {
+			if p, isPath := pathFrom(pr[0], root); isPath && p == elemField {
+				found = true
+			}
+		}
+		if !found {
+			continue
+		}
+		switch o := pr[1].(type) {
+		case *ssa.Const, *ssa.FreeVar, *ssa.Global:
+			return true
+		case *ssa.UnOp:
+			if _, isFV := o.X.(*ssa.FreeVar); isFV {
+				return true
+			}
+		}
+	}
+	return false
 }
 
 func guardedByElemEq(b *ssa.BasicBlock, li *loopInfo, elemField string) bool {
